@@ -1185,7 +1185,7 @@ theorem gateOpsOf_mem_opOf (g : MG) (hn : (g.nodes.map (·.1)).Nodup) (o : Op) (
 theorem normalise_full (W : List Wire) (g : MG) (l : List Op) (h : BuildInv W g l) :
     GraphInv W g.normalise (fun w => (flat l).filter (touches w)) ∧
     g.normalise.nodes.length = 2 * W.length + (flat l).length := by
-  obtain ⟨body, r, _, hid, hops, hon, hnames, hgl, hio⟩ := h
+  obtain ⟨body, r, _, hid, hops, hon, hnames, hgl, hio, _⟩ := h
   have h0 : NInv W g body := ⟨r, hon, hnames, hid⟩
   -- unwrap
   obtain ⟨body1, h1, hT1, hno1, hP1, hI1⟩ := unwrap_fold (g.nodes.filter (fun p => isWrapper p.2)) g body h0
